@@ -284,9 +284,9 @@ def parse_cases(lines):
                 elif kv == "OPENFAIL":
                     cur["openfail"] = True
         elif l.startswith("R "):
-            m = re.match(r"R (\S+) v=(\d+) out=(\S+) ms=(\d+) desc=(.*)", l)
+            m = re.match(r"R (\S+) v=(\d+) out=(\S+)(?: ms=(\d+))? desc=(.*)", l)
             if m:
-                cur.update(out=m.group(3), ms=int(m.group(4)), desc=m.group(5))
+                cur.update(out=m.group(3), ms=int(m.group(4) or 0), desc=m.group(5))
         elif l.startswith("E "):
             cur["stderr"].append(l[2:])
     return cases
@@ -416,6 +416,8 @@ def finding_key(fn, var, what, state, F, claims, bad_long=frozenset(), doc="Writ
     cs = callees_of(fn, F)
     if var["cls"] == "name-empty" and not accepted and "cgi_check_strlen" in cs and (fn, var["param"]) not in bad_long:
         return "cgi_check_strlen:string:name-empty"      # over-long names are refused cleanly: the validator runs, and lets "" through
+    if any("EMPTY message" in w for w in what) and "cgi_get_particle_pcoorPC" in cs:
+        return "cgi_get_particle_pcoorPC:P:fails-without-message"
     if fn == "cgio_new_node" and changed and not accepted:
         return "cgio_new_node:args:node-created-before-validation"     # create, then set label / dimensions / data, no roll-back
     if changed and not accepted and (fam in ("index", "range", "enum", "datatype", "handle") or doc == "Read"):
